@@ -120,6 +120,15 @@ CHECKS = {
              'after first start + timeout, a due retry does happen within the bound, a persisted record that reached the limit says '
              'failure; a failed startup aborts the operator with no API use. Bounded exploration.',
         design_ref='5/C11'),
+    'C14': dict(
+        technique='property-based testing: Hypothesis-generated multi-incarnation closed-loop histories (objects handled / half-handled / '
+                  'created during downtime / being deleted before a start; stream breaks, 410 compaction => re-listing, edits and cloned '
+                  'objects during and after the resume cycle); oracle = per-(incarnation, object, resume handler) counting invariants '
+                  'against the incarnation\'s initial listing',
+        text='At most one successful completion per (incarnation, object, resume handler); exactly one at quiescence for objects listed at '
+             'start as handled-before, without unfinished progress, not being deleted (and surviving); none for objects first seen '
+             'through the stream, nor for objects listed as being deleted unless deleted=True. Bounded exploration.',
+        design_ref='5/C14'),
     'C15': dict(
         technique='bounded-exhaustive enumeration (itertools.product over a criteria alphabet, sampled in quick, complete in thorough) '
                   'of handler declarations x object states x causes through the public decorators, differential against an executable '
